@@ -108,11 +108,11 @@ def parse_errors(stderr, gen, fname):
     return out, und
 
 
-def run_unit(unit, mode=None, canary=None, rlimit=30, threads=8):
+def run_unit(unit, mode=None, canary=None, rlimit=30, threads=8, lenient=False):
     res = UnitResult(unit)
     t0 = time.time()
     try:
-        gen = unitgen.generate(unit, mode=mode, canary=canary)
+        gen = unitgen.generate(unit, mode=mode, canary=canary, lenient=lenient)
     except (LostAnchor, unitgen.TemplateError) as e:
         res.status = 'undecided'
         res.reason = 'lost anchor: %s' % e
@@ -121,7 +121,7 @@ def run_unit(unit, mode=None, canary=None, rlimit=30, threads=8):
     gen['unit'] = unit
     res.gen = gen
     os.makedirs(BUILD, exist_ok=True)
-    suffix = ('__' + mode if mode else '') + ('__canary_' + canary if canary else '')
+    suffix = ('__' + mode if mode else '') + ('__canary_' + canary if canary else '') + ('__lenient' if lenient else '')
     path = os.path.join(BUILD, unit + suffix + '.rs')
     with open(path, 'w') as f:
         f.write(gen['text'])
